@@ -298,7 +298,7 @@ def main(tier):
 
     n_rows, disc, bad = 0, {}, None
     if not tfails and res['ok']:
-        bad, n_rows, disc, err = model_check('C02', cases, base)
+        bad, n_rows, disc, err = model_check('C02', cases, base, max_rows=1600 if tier == 'quick' else None)
         if bad is None:
             broken.append({'kind': 'broken-correspondence', 'obligation': 'model_vs_impl(Engine.Model, MerchantEngine.match/normalize_merchant)',
                            'detail': 'cases.v did not evaluate: ' + err})
